@@ -248,6 +248,12 @@ func (c *Checker) Case(info CaseInfo, run func() *Violation) {
 	c.Record(info, kind, v)
 }
 
+// Note registers a case that was evaluated outside Case() (counts as one evaluation).
+func (c *Checker) Note(info CaseInfo, kind string, v *Violation) {
+	atomic.AddInt64(&c.evals, 1)
+	c.Record(info, kind, v)
+}
+
 // Record registers an already-evaluated case.
 func (c *Checker) Record(info CaseInfo, kind string, v *Violation) {
 	c.mu.Lock()
